@@ -15,7 +15,7 @@ CORPUS_FILES = [
     "water.xyz", "water_trajectory.xyz", "water_single.pdb", "water_trajectory.pdb", "caffeine.mol2", "example.sdf", "water.gro", "crambin.crd",
     "h2o_sto3g.fchk", "peroxide_opt.fchk", "h2o.molden.input", "h2_sto3g.mkl", "he_s_orbital.wfn", "water_sto3g_hf.wfx", "he_spdfgh_virtual_fchk_multiwfn3.7.mwfn",
     "FCIDUMP.psi4.h2", "POSCAR.water", "cubegen_h2o_5points.cube", "water_sto3g_hf_g03.log", "water.com", "PCGamess_PUNCH.dat", "water_orca.out",
-    "water_hf_ccpvtz_freq_qchem.out", "atom_si.cp2k.out", "water_extended_trajectory.xyz", "LiCl_molecule.json", "nh3_orca.molden", "CHGCAR.water", "LOCPOT.oxygen",
+    "water_hf_ccpvtz_freq_qchem.out", "atom_si.cp2k.out", "water_extended_trajectory.xyz", "LiCl_molecule.json", "nh3_orca.molden", "CHGCAR.water", "LOCPOT.oxygen", "mgo.xyz", "al_fcc.xyz",
 ]
 
 
@@ -50,7 +50,7 @@ def build_pool():
         return call
 
     for fn in corpus():
-        fmt = "json_qcschema" if fn.endswith(".json") else ("qchemlog" if "qchem" in fn else ("extxyz" if "extended" in fn else None))
+        fmt = "json_qcschema" if fn.endswith(".json") else ("qchemlog" if "qchem" in fn else ("extxyz" if ("extended" in fn or fn in ("mgo.xyz", "al_fcc.xyz")) else None))
         pool.append((f"load_one:{fn}", loader(fn, False, fmt)))
     for fn in ("water_trajectory.xyz", "water_trajectory.pdb", "peroxide_opt.fchk", "water.gro", "caffeine.mol2", "example.sdf"):
         if fn in corpus():
@@ -80,6 +80,27 @@ def build_pool():
         pool.append((f"dump_one:{name}", dumper(name, False)))
     for name in ("xyz", "pdb", "mol2", "sdf"):
         pool.append((f"dump_many:{name}", dumper(name, True)))
+
+    def wf_dumper(target, conv):
+        def call(work):
+            from iodata import dump_one
+            from props import wfn
+
+            case = {n: m[0] for n, m in wfn.SPACE}
+            case["conventions"] = conv
+            case["shellset"] = "+f-cart" if target in ("wfn", "wfx") else "+d-cart"
+            case["extras"] = "rdm-scf"
+            obj, _ = wfn.build(case, target, 0)
+            path = os.path.join(work, f"{conv}_" + wfn.TARGETS[target])
+            dump_one(obj, path)
+            with open(path, "rb") as fh:
+                return hashlib.blake2b(fh.read(), digest_size=12).hexdigest()
+
+        return call
+
+    for target in ("fchk", "molden", "molekel", "wfn", "wfx"):
+        for conv in ("own", "horton2", "scr1"):
+            pool.append((f"dump_one:{target}:conventions={conv}", wf_dumper(target, conv)))
 
     def inputs(prog):
         def call(work):
